@@ -6,6 +6,7 @@ CONSTANTS
   PairStride = 5
   SameStride = 1
   AttrStride = 2
+  TripleStride = 3
   ShapeFrom = "named dims"
 CONSTRAINT Export
 INVARIANT ImplRefinesReq
@@ -14,6 +15,7 @@ INVARIANT LawBin
 INVARIANT LawBoxIsCentreRule
 INVARIANT LawCellsMonotone
 INVARIANT LawInIsTouched
+INVARIANT LawSameBins
 INVARIANT LawSatisfiable
 PROPERTY Terminates
 CHECK_DEADLOCK FALSE
